@@ -4,7 +4,7 @@ import ast
 
 from .. import contracts as K
 from ..cfg import CFG
-from ..effects import RANDOM_STATE_DECORATOR, SET_RANDOM_STATE, RngSummary, _inside_with_set_random_state, rng_sites
+from ..effects import RANDOM_STATE_DECORATOR, SET_RANDOM_STATE, RngSummary, _inside_with_set_random_state, rng_sites, scope_of_context
 from ..idioms import depends_on, enclosing, guard_chain, is_none_test, only_raises, stmt_of
 from ..kinds import length_of_return
 from ..model import AnalysisError, call_name, is_self_attr, short, walk_no_nested
@@ -14,6 +14,17 @@ from ..absint import TOP
 def _calls_to(prog, fn, dotted):
     return [n for n in walk_no_nested(fn.node) if isinstance(n, ast.Call)
             and prog.resolve(fn.module, n.func) == dotted]
+
+
+def _capture_helpers(prog, fn):
+    """Calls of project helpers that read the global state (np.random.get_state) and never write it."""
+    out = []
+    for c in walk_no_nested(fn.node):
+        if isinstance(c, ast.Call):
+            g = prog.functions.get(prog.resolve(fn.module, c.func) or '')
+            if g is not None and g is not fn and _calls_to(prog, g, 'numpy.random.get_state') and not _calls_to(prog, g, 'numpy.random.set_state'):
+                out.append(c)
+    return out
 
 
 def get_rng(ctx):
@@ -53,7 +64,7 @@ def d1(ctx, rep):
         raise AnalysisError('set_random_state no longer takes (random_state, set_model_random_state)')
     p_state, p_setter = fn.params[0], fn.params[1]
     cfg = CFG(fn.node)
-    gets = _calls_to(prog, fn, 'numpy.random.get_state')
+    gets = _calls_to(prog, fn, 'numpy.random.get_state') + _capture_helpers(prog, fn)
     sets = _calls_to(prog, fn, 'numpy.random.set_state')
     yields = [n for n in walk_no_nested(fn.node) if isinstance(n, ast.Yield)]
     if not yields:
@@ -212,10 +223,14 @@ def d2(ctx, rep):
     for c in calls:
         wth = _inside_with_set_random_state(prog, w, c)
         if wth is not None:
-            ce = [it.context_expr for it in wth.items
-                  if isinstance(it.context_expr, ast.Call) and prog.resolve(w.module, it.context_expr.func) == SET_RANDOM_STATE][0]
+            sc = [scope_of_context(prog, w, it.context_expr) for it in wth.items]
+            sc = [x for x in sc if x is not None][0]
+            ce, owner, bind = sc
             a0 = ce.args[0] if ce.args else None
             a1 = ce.args[1] if len(ce.args) > 1 else None
+            if owner is not w:
+                a0 = bind.get(getattr(a0, 'id', None), a0)
+                a1 = bind.get(getattr(a1, 'id', None), a1)
             ok = is_self_attr(a0, sp, 'random_state') and is_self_attr(a1, sp, 'set_random_state')
             rep.check('D2.scope', w, ce, ok,
                       f"scoped by the model's own state and setter ({short(ce, 80)})",
@@ -412,47 +427,47 @@ def d5(ctx, rep):
                   construct='def set_random_state')
     v = prog.func(VAL)
     p = v.params[0]
-    from ..idioms import enum_paths
-    seen = {'none': False, 'int': False, 'rs': False, 'else': False}
-    for path in enum_paths(v.body()):
-        tags = []
-        for test, pol in path.conds:
-            nt = is_none_test(test)
-            if nt is not None and isinstance(nt[0], ast.Name) and nt[0].id == p:
-                tags.append(('none', nt[1] == pol))
-            elif isinstance(test, ast.Call) and call_name(test) == 'isinstance' and len(test.args) == 2 \
-                    and isinstance(test.args[0], ast.Name) and test.args[0].id == p:
-                tn = prog.resolve(v.module, test.args[1]) or short(test.args[1])
-                tags.append(('int' if tn == 'int' else 'rs' if tn == 'numpy.random.RandomState' else tn, pol))
-        pos = [t for t, pol in tags if pol]
-        end = path.end
-        if pos == ['none']:
-            seen['none'] = True
-            rep.check('D5.validate', v, end, isinstance(end, ast.Return) and (end.value is None or (
-                isinstance(end.value, ast.Constant) and end.value.value is None)), 'None -> None',
-                'a None seed no longer yields None (global-driven sampling is lost)')
-        elif pos == ['int']:
-            seen['int'] = True
+    from ..boolcond import Conds, atoms_of, evaluate
+    from ..idioms import raises as _raises_exc
+    cd = Conds(prog, v)
+    _normal, rs, rets = cd.exits()
+    outcomes = [(st, c) for st, c in rs] + [(st, c) for st, c in rets]
+    keys = set()
+    for _st, c in outcomes:
+        keys |= set(atoms_of(c))
+    k_none = [k for k in keys if k == f'isnone[{p}]']
+    k_int = [k for k in keys if k.startswith(f'isinstance[{p},') and k.endswith(',int]')]
+    k_rs = [k for k in keys if k.startswith(f'isinstance[{p},') and 'RandomState' in k]
+    other = keys - set(k_none + k_int + k_rs)
+    if not (k_none and k_int and k_rs) or other:
+        rep.undecided('D5.validate', v, v.node.name, f'type dispatch not recognised (conditions: {sorted(keys)})', construct='type dispatch')
+    else:
+        cases = {'none': {k_none[0]: True, k_int[0]: False, k_rs[0]: False}, 'int': {k_none[0]: False, k_int[0]: True, k_rs[0]: False},
+                 'rs': {k_none[0]: False, k_int[0]: False, k_rs[0]: True}, 'else': {k_none[0]: False, k_int[0]: False, k_rs[0]: False}}
+        for case, env in cases.items():
+            hit = [st for st, c in outcomes if evaluate(c, env)]
+            if len(hit) != 1:
+                rep.undecided('D5.validate', v, v.node.name, f'case `{case}`: {len(hit)} outcomes', construct=f'case {case}')
+                continue
+            end = hit[0]
             val = end.value if isinstance(end, ast.Return) else None
-            good = (isinstance(val, ast.Call) and prog.resolve(v.module, val.func) == 'numpy.random.RandomState'
-                    and ((val.args and isinstance(val.args[0], ast.Name) and val.args[0].id == p) or any(
-                        k.arg == 'seed' and isinstance(k.value, ast.Name) and k.value.id == p for k in val.keywords)))
-            rep.check('D5.validate', v, end, good, 'int -> np.random.RandomState(seed=<that int>)',
-                      'an int seed is not turned into RandomState(seed=<that int>)')
-        elif pos == ['rs']:
-            seen['rs'] = True
-            val = end.value if isinstance(end, ast.Return) else None
-            rep.check('D5.validate', v, end, isinstance(val, ast.Name) and val.id == p,
-                      'RandomState -> the same object (shared, advanced stream)',
-                      'a RandomState argument is not passed through unchanged')
-        elif not pos:
-            seen['else'] = True
-            from ..idioms import raises
-            rep.check('D5.validate', v, end, isinstance(end, ast.Raise) and raises([end], ('TypeError',)),
-                      'anything else -> TypeError', 'an unsupported seed type is not rejected with TypeError')
-    for k, s in seen.items():
-        if not s:
-            rep.undecided('D5.validate', v, v.node.name, f'branch `{k}` not recognised', construct=f'branch {k}')
+            if case == 'none':
+                rep.check('D5.validate', v, end, isinstance(end, ast.Return) and (val is None or (isinstance(val, ast.Constant) and val.value is None)
+                                                                                 or (isinstance(val, ast.Name) and val.id == p)),
+                          'None -> None', 'a None seed no longer yields None (global-driven sampling is lost)', construct='case none')
+            elif case == 'int':
+                good = (isinstance(val, ast.Call) and prog.resolve(v.module, val.func) == 'numpy.random.RandomState'
+                        and ((val.args and isinstance(val.args[0], ast.Name) and val.args[0].id == p) or any(
+                            k.arg == 'seed' and isinstance(k.value, ast.Name) and k.value.id == p for k in val.keywords)))
+                rep.check('D5.validate', v, end, good, 'int -> np.random.RandomState(seed=<that int>)',
+                          'an int seed is not turned into RandomState(seed=<that int>)', construct='case int')
+            elif case == 'rs':
+                rep.check('D5.validate', v, end, isinstance(val, ast.Name) and val.id == p,
+                          'RandomState -> the same object (shared, advanced stream)', 'a RandomState argument is not passed through unchanged',
+                          construct='case RandomState')
+            else:
+                rep.check('D5.validate', v, end, isinstance(end, ast.Raise) and _raises_exc([end], ('TypeError',)),
+                          'anything else -> TypeError', 'an unsupported seed type is not rejected with TypeError', construct='case other')
 
 
 # --------------------------------------------------------------------------- D6 datasets
@@ -471,11 +486,14 @@ def d6(ctx, rep):
             if s.scoped_with is None:
                 rep.bad('D6.scope', g, s.call, 'draw outside `with set_random_state(...)`: consumes and advances the global generator')
                 continue
-            ce = [it.context_expr for it in s.scoped_with.items if isinstance(it.context_expr, ast.Call)
-                  and prog.resolve(g.module, it.context_expr.func) == SET_RANDOM_STATE][0]
+            sc = [scope_of_context(prog, g, it.context_expr) for it in s.scoped_with.items]
+            ce, owner, bind = [x for x in sc if x is not None][0]
             a0 = ce.args[0] if ce.args else None
-            good = (isinstance(a0, ast.Call) and prog.resolve(g.module, a0.func) == 'copulas.utils.validate_random_state'
-                    and a0.args and isinstance(a0.args[0], ast.Name) and a0.args[0].id == seedp)
+            seed_arg = a0.args[0] if (isinstance(a0, ast.Call) and prog.resolve(owner.module, a0.func) == 'copulas.utils.validate_random_state'
+                                      and a0.args) else None
+            if owner is not g and isinstance(seed_arg, ast.Name):
+                seed_arg = bind.get(seed_arg.id)
+            good = isinstance(seed_arg, ast.Name) and seed_arg.id == seedp
             rep.check('D6.scope', g, s.call, good, f'scoped by validate_random_state({seedp})',
                       'the scope is not seeded with this generator\'s `seed` parameter', )
         # calls of other generators must forward (size, seed)
